@@ -42,10 +42,11 @@ Fixpoint bits_succ (l : bits) : bits :=
 (* carry-less (GF(2)[x]) product of polynomials encoded as numbers: bit i = coefficient of x^i *)
 Fixpoint clmul_bits (q : bits) (p : N) : N :=
   match q with [] => 0 | b :: r => N.lxor (if b then p else 0) (2 * clmul_bits r p) end.
-Definition clmul (q p : N) : N := clmul_bits (bits_of_N (N.to_nat (N.size q)) q) p.
 
-(* t is the remainder of m modulo the polynomial p (of degree r, i.e. 2^r <= p < 2^(r+1)) *)
-Definition gf2_rem (r m p t : N) : Prop := t < 2 ^ r /\ exists q, m = N.lxor (clmul q p) t.
+(* t is the remainder of the polynomial m modulo the polynomial p of degree r
+   (2^r <= p < 2^(r+1)): deg t < r and m = q * p + t for some quotient q (coefficient list,
+   LSB first) *)
+Definition gf2_rem (r m p t : N) : Prop := t < 2 ^ r /\ exists q : bits, m = N.lxor (clmul_bits q p) t.
 
 (* ------------------------------------------------------------------ conversions *)
 Lemma N_of_bits_lt l : N_of_bits l < 2 ^ N.of_nat (length l).
